@@ -36,6 +36,7 @@ class FieldInfo:
         self.kw_only = kw_only
         self.has_default = has_default
         self.owner = owner
+        self.initvar = False
 
 
 class ClassInfo:
@@ -143,6 +144,8 @@ class ClassInfo:
             params = c.dataclass_params()
             for name, value in c.own_fields:
                 fi = FieldInfo(name, owner=c, kw_only=bool(params.get("kw_only", False)))
+                ann = ast.unparse(c.annotations[name]) if name in c.annotations else ""
+                fi.initvar = ann.startswith("InitVar") or ann.startswith("dataclasses.InitVar")
                 if value is not None:
                     if _is_field_call(value):
                         for kw in value.keywords:
